@@ -168,6 +168,34 @@ CLAIMED = {
         "dynamic symbolic execution of the real Python code (vx) + z3; CrossHair 0.0.110 for the string sub-check (bug-hunting)",
         "DESIGN.md section 4 C08",
     ),
+    "C04": (
+        "model_checking",
+        "The process-wide numpy generator is modelled as a state machine over an uninterpreted sort (seed(s) -> seeded(s) with s possibly "
+        "symbolic, draws advance next(.), get_state/set_state move terms; drawn data come from a private generator keyed on the state term so "
+        "the numerical code runs unmodified). set_random_seed with symbolic seed / None, 0..2 draws and an optional exception in the body: final "
+        "state term == initial term, seeded draws do not depend on the prior state (substitution of a fresh initial state). 15 stochastic model "
+        "functions on real detectors: restored when seeded (also when the model fails late), draws independent of the prior state, no re-seeding "
+        "without a seed. Seed plumbing with a symbolic pipeline seed through real run_mode (exposure, sequential observation), the dask worker "
+        "function, fitness(), _apply_parameters and Calibration.run_calibration (archipelago stubbed).",
+        "Bit-identity of results additionally assumes numpy's generator and pygmo are deterministic functions of their seeds; local generators "
+        "are not modelled; models needing external files (cosmix, charge_deposition, nghxrg, qe maps) are not exercised; pulse_processing's "
+        "deterministic physics is stubbed (170 s per pixel).",
+        "dynamic symbolic execution of the real Python code (vx) + z3 UF (uninterpreted RNG state machine), 2-copy non-interference by substitution",
+        "DESIGN.md section 4 C04",
+    ),
+    "C06": (
+        "model_checking",
+        "One inductive step from an arbitrary valid state (symbolic detector fields, symbolic 2x2 buckets, detector memory, trapped charge, "
+        "model arguments incl. mutable lists/dicts): new = f(processor, {key: v}) for deepcopy, create_new_processor, Processor.replace, "
+        "update_processor, build_processors and 8 keys; the copy differs from the original in exactly the targeted leaf (== v), shares no "
+        "object with it, and after the copy is havocked (fresh value in every leaf, arrays mutated in place, mutable arguments appended to, a "
+        "model mutating its arguments and the detector memory run through the real _run_single_pipeline) every leaf of the caller's processor "
+        "still equals its initial term. The caller's state being invariant under any run, every run starts from the same state.",
+        "Equality of a run's result with a standalone exposure's result is a concrete replay (C05), not a solver obligation; dask worker "
+        "processes (pickling) outside.",
+        "dynamic symbolic execution of the real Python code (vx) + z3, havoc-the-copy frame condition (one inductive step)",
+        "DESIGN.md section 4 C06",
+    ),
 }
 
 NOT_APPLICABLE = {
